@@ -40,6 +40,9 @@ type DiskWriter struct {
 	egCtx       context.Context
 	filter      FilterFunc
 	dirModTimes map[string]int64
+	// rejected holds the paths the filter left out: they were not created, so a
+	// later hard link can not name them
+	rejected map[string]struct{}
 }
 
 func NewDiskWriter(ctx context.Context, dest string, opt DiskWriterOpt) (*DiskWriter, error) {
@@ -62,6 +65,7 @@ func NewDiskWriter(ctx context.Context, dest string, opt DiskWriterOpt) (*DiskWr
 		cancel:      cancel,
 		filter:      opt.Filter,
 		dirModTimes: map[string]int64{},
+		rejected:    map[string]struct{}{},
 	}, nil
 }
 
@@ -130,6 +134,7 @@ func (dw *DiskWriter) HandleChange(kind ChangeKind, p string, fi os.FileInfo, er
 
 	if dw.filter != nil {
 		if ok := dw.filter(p, statCopy); !ok {
+			dw.rejected[p] = struct{}{}
 			return nil
 		}
 	}
@@ -177,6 +182,9 @@ func (dw *DiskWriter) HandleChange(kind ChangeKind, p string, fi os.FileInfo, er
 		}
 	case statCopy.Linkname != "":
 		// a hard link, whatever the type of the inode (regular file, device, fifo)
+		if _, ok := dw.rejected[statCopy.Linkname]; ok {
+			return errors.Errorf("invalid link %s to filtered path %q", p, statCopy.Linkname)
+		}
 		if err := os.Link(filepath.Join(dw.dest, statCopy.Linkname), newPath); err != nil {
 			return errors.Wrapf(err, "failed to link %s to %s", newPath, statCopy.Linkname)
 		}
